@@ -1,5 +1,6 @@
 import DV.Model.Loop
 import DV.Model.RK
+import DV.Model.Controller
 /-!
 # Whole runs with states: the time-grid machine of `DV.Loop` together with the recorded states
 
@@ -86,6 +87,15 @@ def faultOrc (j : Nat) : Oracle α := fun k _ h => if k == j then { ret := .rais
 def integrateFault [Sub α] (cfg : Cfg α) (add : V → V → V) (inc : α → V → α → V) (s : SysY α V) (target : α) (j fuel : Nat) : SysY α V :=
   let out := Loop.integrate cfg s.sys target (faultOrc j) fuel
   { sys := out.sys, ys := match s.ys.getLast? with | some y0 => ysOf add inc y0 out.sys.ts | none => [] }
+
+/-- **The integrator as the loop sees it, built from the accept/retry model of `__call__`** (`DV.Controller.call`): in iteration `k`
+at time `t` with request `h` the attempts are `atts k t` (what `update_timestep` and the Newton solve deliver for each attempted step);
+the call hands back the accepted step and the next proposal, or raises after `retries` rejections -/
+def ctrlOrc (adaptiveOrImplicit implicit : Bool) (c08 : α) (atts : Nat → α → Controller.Attempts α) (retries : Nat) : Oracle α :=
+  fun k t h =>
+    match Controller.call adaptiveOrImplicit implicit c08 h (atts k t) retries with
+    | .ok newDt dT _ => { ret := .ok newDt dT }
+    | .raise _ => { ret := .raise }
 
 /-- the increment of one step of an explicit Runge–Kutta table (zeroed stage storage: for an explicit
 table no stage reads storage that this pass has not written, `DVP.RK.computeStep_spec`) -/
